@@ -152,6 +152,22 @@ func genClEntry(r *core.Rand) clEntry {
 		long := "  * closes: " + strings.Repeat(r.Pick([]string{"#123456, ", "x", "ab "}), r.Range(500, 1500)) + "end"
 		e.Body = append(e.Body[:r.Intn(len(e.Body)+1)], append([]string{long}, e.Body[r.Intn(len(e.Body)+1):]...)...)
 	}
+	if r.Chance(1, 25) {
+		// a header line of several KiB (a long list of options)
+		for k := r.Range(250, 700); k > 0; k-- {
+			e.Opts = append(e.Opts, [2]string{"x-opt" + strconv.Itoa(k), r.Pick([]string{"yes", "no", "medium"})})
+		}
+	}
+	if r.Chance(1, 50) {
+		// an entry of 64 KiB and more: many change lines, or one huge line
+		if r.Bool() {
+			for k := r.Range(1500, 2500); k > 0; k-- {
+				e.Body = append(e.Body, "  * Update translation "+strconv.Itoa(k)+" (closes: #"+strconv.Itoa(100000+k)+")")
+			}
+		} else {
+			e.Body = append(e.Body, "  * "+strings.Repeat("generated-file-name.ext ", r.Range(2800, 4500))+"end")
+		}
+	}
 	e.Who = r.Pick(people)
 	e.When = time.Unix(int64(r.Intn(2000000000)), 0).In(time.FixedZone("", (r.Intn(27)-12)*1800))
 	return e
@@ -231,7 +247,31 @@ func streamChangelog(g *core.G) {
 		if !g.Thorough {
 			step = 1 + len(text)/40
 		}
+		cuts := []int{}
 		for cut := r.Intn(step); cut < len(text); cut += step {
+			cuts = append(cuts, cut)
+		}
+		// and the places where a reader's buffer ends: multiples of 4096 and 65536, +-1
+		if !g.Thorough {
+			for c := 4096; c < len(text)+2; c += 4096 {
+				for _, d := range []int{-1, 0, 1} {
+					if c+d < len(text) && (c <= 16384 || c%65536 == 0 || r.Chance(1, 6)) {
+						cuts = append(cuts, c+d)
+					}
+				}
+			}
+		}
+		if len(text) > 16384 && len(cuts) > 14 {
+			// a large text: the boundary cuts nearest the start and around 64 KiB, and a few others
+			keep := []int{}
+			for _, c := range cuts {
+				if (c >= 4095 && c <= 4097) || (c >= 8191 && c <= 8193) || (c >= 65535 && c <= 65537) || r.Chance(1, 1+len(cuts)/6) {
+					keep = append(keep, c)
+				}
+			}
+			cuts = keep
+		}
+		for _, cut := range cuts {
 			p := text[:cut]
 			complete := 0
 			lastEnd := 0
